@@ -550,13 +550,26 @@ func (s *Session) execInner(f []string) (obs string) {
 			if err != nil {
 				return errCode(err)
 			}
-			return "ok " + cacheStr(num, v)
+			obs := "ok " + cacheStr(num, v)
+			// the caller owns what it was given: it reorders and overwrites the slice (sort, compaction, reuse as a buffer) —
+			// no later answer of any accessor, comparison or query may depend on that
+			for i, j := 0, len(v)-1; i < j; i, j = i+1, j-1 {
+				v[i], v[j] = v[j], v[i]
+			}
+			if len(v) > 0 {
+				v[0] = nil
+			}
+			return obs
 		case "object":
 			v, err := n.GetObject()
 			if err != nil {
 				return errCode(err)
 			}
-			return "ok " + cacheStr(num, v)
+			obs := "ok " + cacheStr(num, v)
+			for k := range v { // … and empties the map it was given
+				delete(v, k)
+			}
+			return obs
 		case "unpack":
 			v, err := n.Unpack()
 			if err != nil {
@@ -1253,15 +1266,26 @@ func streamComparePairs(o *Out, r *Rng, tier string) {
 	if tier == "thorough" {
 		n = 2500
 	}
-	for i := 0; i < n; i++ {
+	// the two zeros: equal as values (== of float64), different bit patterns; alone and inside containers
+	zeroPairs := [][2]string{{`0`, `-0`}, {`-0.0`, `0e5`}, {`[1,0,"x"]`, `[1,-0,"x"]`}, {`{"a":{"b":[-0]}}`, `{"a":{"b":[0]}}`}, {`[0.0,-0]`, `[-0e1,0]`}}
+	for i := 0; i < n+len(zeroPairs); i++ {
 		base := r.Pick(cmpDocs)
-		v, _, err := refDecode([]byte(base))
-		if err != nil {
-			continue
-		}
+		var v interface{}
+		var err error
 		mutate := r.Chance(60)
 		wanted := mutate
-		other := variantOf(r, v, &mutate)
+		var other string
+		if i >= n {
+			base, other = zeroPairs[i-n][0], zeroPairs[i-n][1]
+			mutate, wanted = false, false
+			o.Stat("cmp.signed-zero")
+		} else {
+			v, _, err = refDecode([]byte(base))
+			if err != nil {
+				continue
+			}
+			other = variantOf(r, v, &mutate)
+		}
 		if wanted && !mutate {
 			o.Stat("cmp.differs-in-one-place")
 		} else {
